@@ -1763,3 +1763,17 @@ M('C18', 'inverse wavelet adjoint unscaled', 'odl/trafos/wavelet.py',
 MA('C11', 'proj_l1 takes the sign after the simplex projection wrote out',
    'odl/solvers/nonsmooth/proximal_operators.py', 'proj_l1',
    'out *= v', 'out *= x.ufuncs.sign()', 'R5')
+M('C05', 'order1_adjoint forward increment applied before the boundary rows',
+  DIFF, """            out[0] = f_arr[0] + f_arr[1]
+            out[-1] = -f_arr[-1]
+
+            # Increment in case array is very short and we get aliasing
+            out[1] -= f_arr[0]
+""", """            out[1] -= f_arr[0]
+            out[0] = f_arr[0] + f_arr[1]
+            out[-1] = -f_arr[-1]
+""", 'axis of 2 points')
+MA('C08', 'conjugate KL proximal reads the input after out was written',
+   'odl/solvers/nonsmooth/proximal_operators.py',
+   'proximal_convex_conj_kl.ProximalConvexConjKL._call',
+   'x = x.copy()', 'out.assign(x)', 'in place')
